@@ -864,7 +864,7 @@ func (x *Exec) mapLen(st *State, ref string) string {
 	t := mkSelect(h, ref)
 	if !st.wf["maplen|"+t] {
 		st.wf["maplen|"+t] = true
-		st.assume(mkCmp("<=", "0", t))
+		st.assume(mkAnd(mkCmp("<=", "0", t), mkCmp("<=", t, maxSliceLen)))
 	}
 	return t
 }
